@@ -23,6 +23,8 @@ for d in sorted(Path("/verif/seeded").iterdir()):
             hist = " (first run: " + ", ".join(missed) + " missed; check strengthened)"
     needs = (m.get("needs") or "").replace("\n", " ").replace("|", "/")
     needs = needs[:140] + ("…" if len(needs) > 140 else "")
+    if m.get("neutralised_by"):
+        hist += f" (no longer a defect after `{m['neutralised_by']}`: the demonstration passes on HEAD + patch)"
     if m.get("applies_at_head") is False:
         hist += f" (applies to the tree before `{m.get('superseded_by', 'a later fix: commit')}`; result of the last run on that tree)"
     rows.append(f"| `{d.name}` | {', '.join(files)}: {', '.join(funcs)[:80]} | {needs} | {'; '.join(det)}{hist} |")
